@@ -9,7 +9,10 @@ use ops::*;
 /// (property id, what) of the first disagreement
 pub type Verdict = Result<(), (&'static str, &'static str)>;
 
-pub fn judge(real: &Obs, bad_rest: bool, oracle: &Obs, cmp_err: bool, cmp_fields: bool, allow_sentinel: bool, post: Result<(), &'static str>) -> Verdict {
+pub fn judge(input: &str, real: &Obs, bad_rest: bool, oracle: &Obs, cmp_err: bool, cmp_fields: bool, allow_sentinel: bool, post: Result<(), &'static str>) -> Verdict {
+    // C04: every offset the parser exposes lies on a character boundary inside the input
+    if real.ok { if real.end > input.len() || !input.is_char_boundary(real.end) { return Err(("C04", "the end offset is not a character boundary inside the input")); } }
+    else if real.err > input.len() || !input.is_char_boundary(real.err) { return Err(("C04", "the reported error position is not a character boundary inside the input")); }
     if bad_rest { return Err(("C14", "an extern function was not handed the remaining input at the current offset")); }
     if real.ok != oracle.ok {
         return Err(("C01", if real.ok { "generated parser accepts where the PEG reading of the grammar rejects" } else { "generated parser rejects where the PEG reading of the grammar accepts" }));
@@ -42,7 +45,7 @@ macro_rules! judge_schema {
         let bad = $crate::ops::bad_rest();
         let oracle = $crate::schemas::$m::oracle(t);
         let post = $crate::schemas::$m::post(t, &real, &oracle);
-        $crate::judge(&real, bad, &oracle, $crate::schemas::$m::CMP_ERR, $crate::schemas::$m::CMP_FIELDS, $crate::schemas::$m::ALLOW_SENTINEL, post)
+        $crate::judge(t.input(), &real, bad, &oracle, $crate::schemas::$m::CMP_ERR, $crate::schemas::$m::CMP_FIELDS, $crate::schemas::$m::ALLOW_SENTINEL, post)
     }};
 }
 
